@@ -17,7 +17,7 @@ META = {
                   'with one consumer (ringbuf_get / ringbuf_empty) at atomic-operation granularity: the bytes returned by successful gets are a prefix of the bytes of the successful puts (in order, once, as 0..255), '
                   'a put fails only when buf_len-1 bytes are unread at its load of readi, get returns -1 / empty returns true only when the ring is empty at their load of writei, every index used is < buf_len, '
                   'a payload store never hits an unread cell, and the producer\'s payload store and the consumer\'s payload load never address the same cell at the same time. Proved in Lean about the model (kernel-only).',
-    'level_note': 'Trusted: Lean kernel (standard axioms); the hand model Model/RingConc.lean, tied to the current ringbuf.c/ringbuf.h (a) statically: access sites, their order, branch context, memory orders and _Atomic-ness '
+    'level_note': 'Tie T2 (DESIGN 12): ringbuf_put/get/empty/init are regenerated from ringbuf.c each run (pointers = 64-bit values, storage = byte memory) and proved equal to what the interleaving model computes when one thread runs the call alone - index wrap, full/empty comparison, addressed cell, result, published index (Props/C05Tie.lean: bv_decide certificates for the *_generated theorems only). Trusted: Lean kernel (standard axioms); the hand model Model/RingConc.lean, tied to the current ringbuf.c/ringbuf.h (a) statically: access sites, their order, branch context, memory orders and _Atomic-ness '
                   'of the fields extracted by tools/skeleton.py from clang\'s AST must equal the model\'s table (skeleton_matches_ring), all orders seq_cst (ring_ord_all_seqcst), readi/writei _Atomic and only accessed atomically (ring_fields_atomic); '
                   '(b) dynamically by sampling: per-segment log (operation, field, memory order, value, shared state incl. storage and guard bytes) of the real code equals the model\'s on random and, in the thorough tier, all '
                   'non-equivalent schedules of small scenarios. Sequentially consistent interleaving semantics (justified for the C program by DRF-SC given all-seq_cst atomics: C07); buf_len <= 2^32 (indices are unsigned int; '
